@@ -1276,11 +1276,11 @@ val subst_ok : z -> sst1 -> expr -> bool
 
 val subst_st : z -> sst1 -> expr -> expr
 
+val is_bot : sst1 -> bool
+
 val is_nz_const : z -> expr -> bool
 
 val nonzero_in : z -> sst1 -> expr -> bool
-
-val is_bot : sst1 -> bool
 
 val entails : z -> sst1 -> facts -> bool
 
